@@ -6,7 +6,7 @@ Model: `CoclsModel/ThreadPool.lean` (one small step per critical section on the 
 workers `0..nw-1`, clients `nw..nt-1`).  Every theorem quantifies over *all* configurations (any number of workers ≥ 1 and
 of clients, arbitrary client scripts: submissions of every kind whose bodies may stop the pool, submit nested work or
 delete the pool, or block until another job has signalled an event (a job waiting for another job); `stop()`;
-destruction), over *all* schedules (`run` over an arbitrary list of thread choices, threads
+destruction; optionally a second pool instance B that jobs and clients stop or destroy), over *all* schedules (`run` over an arbitrary list of thread choices, threads
 that are not enabled do not move) and over *all* choices of the waiter a `notify_one` wakes and of the order in which
 `stop()` destroys the closures of the swapped-out queue (`std::deque` leaves it unspecified).
 
@@ -22,6 +22,7 @@ structure WF (c : Cfg) : Prop where
   out : c.dtorOutside = true
   nw : 0 < c.nw
   nt : c.nw ≤ c.nt
+  b : c.hasB = true → c.nw < c.nt
 
 /-- every state some schedule can produce -/
 def Reachable (c : Cfg) (s : State) : Prop := ∃ sched, s = run c (init c) sched
@@ -29,8 +30,8 @@ def Reachable (c : Cfg) (s : State) : Prop := ∃ sched, s = run c (init c) sche
 /-- quiescence: no thread of the configuration can move -/
 def Stuck (c : Cfg) (s : State) : Prop := ∀ t, t < c.nt → enabled s t = false
 
-/-- every thread ran to its end -/
-def AllDone (c : Cfg) (s : State) : Prop := ∀ t, t < c.nt → s.pc t = Pc.done
+/-- every thread ran to its end (the worker of the other pool instance B may still sleep in its idle wait) -/
+def AllDone (c : Cfg) (s : State) : Prop := ∀ t, t < c.nt → s.pc t = Pc.done ∨ s.pc t = Pc.bCvBlocked
 
 /-- no thread is blocked in a user-level wait (`Prim.wait`: a job or client waiting for an event that only another job
 signals); such waits are the program's, not the pool's: a job that waits for a job which can never run (one worker, or
@@ -42,7 +43,7 @@ def Cancellable (c : Cfg) (k : Kind) : Prop := dropKind c k ≠ DropAct.nothing
 
 theorem reachable_inv {c : Cfg} (hc : WF c) {s : State} (h : Reachable c s) : Inv c s := by
   obtain ⟨sched, rfl⟩ := h
-  exact inv_run sched (inv_init c hc.out hc.nw hc.nt)
+  exact inv_run sched (inv_init c hc.out hc.nw hc.nt hc.b)
 
 /-- in a stuck state nobody is blocked on the pool mutex: its holder (a worker at the head of its loop) could move; so
 every thread is disabled for a reason of its own program counter -/
@@ -87,93 +88,93 @@ theorem c11_cancel_only_when_stopped {c : Cfg} (hc : WF c) {s : State} (h : Reac
   have hi := reachable_inv hc h
   exact hi.x_drop_exit j (by have := cancelled_le_dropped hi j; omega)
 
-/-- **`stop()` and the destructor terminate, for every timing.** Once any `stop()` (from a client, from a job — the
-self-detach path —, concurrently from several threads, or through the destructor) has executed its critical section,
-the system cannot get stuck before every thread has finished: the stopper is never blocked for ever in `join`, no
-worker sleeps for ever on the condition variable.  (`NoUserWait`: jobs blocked in their own waits are the program's
-dead-lock; `c11_stop_blocked_only_by_user_waits` is the statement without that hypothesis.) -/
-theorem c11_stop_terminates {c : Cfg} (hc : WF c) {s : State} (h : Reachable c s) (hst : Stuck c s) (hnu : NoUserWait s)
-    (hex : s.exit = true) : AllDone c s := by
+/-- why a thread of a stuck state cannot move: it is finished, asleep in a condition wait without a notification, blocked
+in a wait of the program, or the one `stop()` of pool A that joins an unfinished worker (nobody is blocked on a mutex or
+in `B.stop()`) -/
+theorem stuck_reason {c : Cfg} (hc : WF c) {s : State} (h : Reachable c s) (hst : Stuck c s) (t : Nat) (ht : t < c.nt) :
+    s.pc t = Pc.done ∨ (s.pc t = Pc.wCvBlocked ∧ s.woken t = false) ∨ (s.pc t = Pc.bCvBlocked ∧ s.bWoken = false) ∨
+    (∃ f, s.pc t = Pc.waitFlag f ∧ s.flag f = false) ∨
+    (s.pc t = Pc.joinBlocked ∧ ∃ u rest, s.tmp t = u :: rest ∧ s.pc u ≠ Pc.done) := by
   have hi := reachable_inv hc h
-  have hwq : s.waitq = [] := hi.s_exit_wq hex
-  -- a thread that is not enabled is finished, or blocked in a join on an unfinished thread
-  have key : ∀ t, t < c.nt → s.pc t ≠ Pc.done →
-      s.pc t = Pc.joinBlocked ∧ ∃ u rest, s.tmp t = u :: rest ∧ s.pc u ≠ Pc.done := by
-    intro t ht hnd
-    have hen := stuck_enabledPc hc h hst t ht
-    unfold enabledPc at hen
+  have hen := stuck_enabledPc hc h hst t ht
+  unfold enabledPc at hen
+  split at hen
+  · rename_i hpc; exact Or.inl hpc
+  · rename_i hpc; exact absurd hpc (hi.s_nostuck t)
+  · rename_i hpc; exact Or.inr (Or.inl ⟨hpc, hen⟩)
+  · rename_i hpc; exact Or.inr (Or.inr (Or.inl ⟨hpc, hen⟩))
+  · -- blocked joining B's worker: impossible, that worker has been notified and can move
+    rename_i hpc
+    exfalso
+    have hb := hi.bb_tmp t (hi.bb_jb t hpc)
+    have hbw := hi.bb_bw
+    have hwk := hi.bb_exit (hi.bb_stop t (Or.inr hpc))
+    have hnt := hc.b hb
+    rw [hbw] at hen
+    have henw := stuck_enabledPc hc h hst c.nw hnt
+    unfold enabledPc at henw
+    rcases hi.bb_w hb with hw | hw
+    · cases hp : s.pc c.nw <;> rw [hp] at hw henw <;> simp [Pc.isB] at hw <;> simp [hwk] at henw
+    · rw [hw] at hen; simp at hen
+  · rename_i f hpc; exact Or.inr (Or.inr (Or.inr (Or.inl ⟨f, hpc, hen⟩)))
+  · rename_i hpc
     split at hen
-    · rename_i hpc; exact absurd hpc hnd
-    · rename_i hpc; exact absurd hpc (hi.s_nostuck t)
-    · rename_i hpc
-      rcases hi.s_cv t (Or.inr hpc) with hw | hw
-      · rw [hw] at hen; cases hen
-      · rw [hwq] at hw; cases hw
-    · rename_i f hpc; exact absurd hpc (hnu t f)
-    · rename_i hpc
-      split at hen
-      · rename_i u rest htm
-        refine ⟨hpc, u, rest, htm, ?_⟩
-        intro hd; rw [hd] at hen; simp at hen
-      · cases hen
+    · rename_i u rest htm
+      refine Or.inr (Or.inr (Or.inr (Or.inr ⟨hpc, u, rest, htm, ?_⟩)))
+      intro hd; rw [hd] at hen; simp at hen
     · cases hen
-  intro t ht
-  by_cases hd : s.pc t = Pc.done
-  · exact hd
-  · exfalso
-    obtain ⟨hjb, u, rest, htm, hud⟩ := key t ht hd
-    have hu_w : u < c.nw := hi.s_tmp_w t u (by rw [htm]; simp)
-    have hu_t : u < c.nt := Nat.lt_of_lt_of_le hu_w hc.nt
-    obtain ⟨hjb', u', rest', htm', _⟩ := key u hu_t hud
-    have htu : t = u := hi.s_tmp_uniq t u (by rw [htm]; simp) (by rw [htm']; simp)
-    have := hi.s_jb_head t hjb
-    rw [htm] at this
-    simp at this
-    exact this htu.symm
+  · cases hen
 
-/-- **Nothing but the program's own waits can block a stopped pool.** In any stuck state after a `stop()` every thread
-is finished, or blocked in a user-level wait for an event nobody signalled, or is the one `stop()` joining a worker
-whose job is blocked in such a wait. -/
+/-- **Nothing but the program's own waits can block a stopped pool.** In any stuck state after a `stop()` of pool A every
+thread is finished (or is the idle worker of the other pool), or blocked in a user-level wait for an event nobody
+signalled, or is the one `stop()` joining a worker whose job is blocked in such a wait. -/
 theorem c11_stop_blocked_only_by_user_waits {c : Cfg} (hc : WF c) {s : State} (h : Reachable c s) (hst : Stuck c s)
     (hex : s.exit = true) (t : Nat) (ht : t < c.nt) :
-    s.pc t = Pc.done ∨ (∃ f, s.pc t = Pc.waitFlag f ∧ s.flag f = false) ∨
+    s.pc t = Pc.done ∨ s.pc t = Pc.bCvBlocked ∨ (∃ f, s.pc t = Pc.waitFlag f ∧ s.flag f = false) ∨
     (s.pc t = Pc.joinBlocked ∧ ∃ u rest f, s.tmp t = u :: rest ∧ s.pc u = Pc.waitFlag f ∧ s.flag f = false) := by
   have hi := reachable_inv hc h
   have hwq : s.waitq = [] := hi.s_exit_wq hex
-  have key : ∀ t, t < c.nt → s.pc t = Pc.done ∨ (∃ f, s.pc t = Pc.waitFlag f ∧ s.flag f = false) ∨
-      (s.pc t = Pc.joinBlocked ∧ ∃ u rest, s.tmp t = u :: rest ∧ s.pc u ≠ Pc.done) := by
-    intro t ht
-    have hen := stuck_enabledPc hc h hst t ht
-    unfold enabledPc at hen
-    split at hen
-    · rename_i hpc; exact Or.inl hpc
-    · rename_i hpc; exact absurd hpc (hi.s_nostuck t)
-    · rename_i hpc
-      rcases hi.s_cv t (Or.inr hpc) with hw | hw
-      · rw [hw] at hen; cases hen
-      · rw [hwq] at hw; cases hw
-    · rename_i f hpc; exact Or.inr (Or.inl ⟨f, hpc, hen⟩)
-    · rename_i hpc
-      split at hen
-      · rename_i u rest htm
-        refine Or.inr (Or.inr ⟨hpc, u, rest, htm, ?_⟩)
-        intro hd; rw [hd] at hen; simp at hen
-      · cases hen
-    · cases hen
-  rcases key t ht with h1 | h1 | ⟨hjb, u, rest, htm, hud⟩
+  have nocv : ∀ u, ¬ (s.pc u = Pc.wCvBlocked ∧ s.woken u = false) := by
+    intro u ⟨hp, hw⟩
+    rcases hi.s_cv u (Or.inr hp) with h1 | h1
+    · rw [hw] at h1; cases h1
+    · rw [hwq] at h1; cases h1
+  rcases stuck_reason hc h hst t ht with h1 | h1 | h1 | h1 | ⟨hjb, u, rest, htm, hud⟩
   · exact Or.inl h1
-  · exact Or.inr (Or.inl h1)
+  · exact absurd h1 (nocv t)
+  · exact Or.inr (Or.inl h1.1)
+  · exact Or.inr (Or.inr (Or.inl h1))
   · have hu_w : u < c.nw := hi.s_tmp_w t u (by rw [htm]; simp)
     have hu_t : u < c.nt := Nat.lt_of_lt_of_le hu_w hc.nt
-    rcases key u hu_t with h2 | ⟨f, hf, hff⟩ | ⟨hjb', u', rest', htm', _⟩
+    rcases stuck_reason hc h hst u hu_t with h2 | h2 | h2 | ⟨f, hf, hff⟩ | ⟨hjb', u', rest', htm', _⟩
     · exact absurd h2 hud
-    · exact Or.inr (Or.inr ⟨hjb, u, rest, f, htm, hf, hff⟩)
+    · exact absurd h2 (nocv u)
+    · exfalso
+      have := (hi.bb_pc u (by rw [h2.1]; rfl)).2
+      omega
+    · exact Or.inr (Or.inr (Or.inr ⟨hjb, u, rest, f, htm, hf, hff⟩))
     · exfalso
       have htu : t = u := hi.s_tmp_uniq t u (by rw [htm]; simp) (by rw [htm']; simp)
       have := hi.s_jb_head t hjb
       rw [htm] at this
       simp at this
       exact this htu.symm
+
+/-- **`stop()` and the destructor terminate, for every timing.** Once any `stop()` (from a client, from a job — the
+self-detach path —, concurrently from several threads, or through the destructor) has executed its critical section,
+the system cannot get stuck before every thread has finished: the stopper is never blocked for ever in `join`, no
+worker sleeps for ever on the condition variable — also when notifications and the entry of `_cond.wait` interleave
+(`Pc.wCvEnter`: the mutex is held there, so no `notify` can fall into that window).  (`NoUserWait`: jobs blocked in
+their own waits are the program's dead-lock; `c11_stop_blocked_only_by_user_waits` is the statement without that
+hypothesis.  `AllDone` leaves out the worker of the other pool instance B, which sleeps as long as B is not stopped.) -/
+theorem c11_stop_terminates {c : Cfg} (hc : WF c) {s : State} (h : Reachable c s) (hst : Stuck c s) (hnu : NoUserWait s)
+    (hex : s.exit = true) : AllDone c s := by
+  intro t ht
+  rcases c11_stop_blocked_only_by_user_waits hc h hst hex t ht with h1 | h1 | ⟨f, hf, _⟩ | ⟨_, u, _, f, _, hf, _⟩
+  · exact Or.inl h1
+  · exact Or.inr h1
+  · exact absurd hf (hnu t f)
+  · exact absurd hf (hnu u f)
 
 /-- **No stranded job.** In a stuck state of a pool that nobody stopped no submission is queued while a worker sleeps in
 the condition wait — whatever the jobs do, including jobs that block waiting for other jobs: every worker is then busy
@@ -228,33 +229,43 @@ theorem c11_no_stranded_job {c : Cfg} (hc : WF c) {s : State} (h : Reachable c s
     · rw [h1] at henu; cases henu
     · rw [h1] at henu; cases henu
 
+/-- at quiescence, when no thread is blocked in a wait of the program, every thread is finished or is an idle worker
+asleep in its condition wait (of pool A, or the worker of pool B) -/
+theorem c11_quiescent_threads {c : Cfg} (hc : WF c) {s : State} (h : Reachable c s) (hst : Stuck c s) (hnu : NoUserWait s)
+    (t : Nat) : s.pc t = Pc.done ∨ s.pc t = Pc.wCvBlocked ∨ s.pc t = Pc.bCvBlocked := by
+  have hi := reachable_inv hc h
+  by_cases ht : t < c.nt
+  · rcases stuck_reason hc h hst t ht with h1 | h1 | h1 | ⟨f, hf, _⟩ | ⟨hjb, _⟩
+    · exact Or.inl h1
+    · exact Or.inr (Or.inl h1.1)
+    · exact Or.inr (Or.inr h1.1)
+    · exact absurd hf (hnu t f)
+    · exfalso
+      cases hex : s.exit with
+      | false => have := (hi.n_noexit hex t).1; rw [hjb] at this; cases this
+      | true =>
+        rcases c11_stop_terminates hc h hst hnu hex t ht with h2 | h2 <;> rw [hjb] at h2 <;> cases h2
+  · exact Or.inl (hi.t_out t (by omega))
+
 /-- When a pool that nobody stopped becomes quiescent, all clients are finished, all workers sleep on the condition
-variable, the queue is empty and **every submission has been executed** (no lost wake-up, nothing forgotten). -/
+variable, the queue is empty and **every submission has been executed** (no lost wake-up, nothing forgotten) — also
+when one of its jobs stopped or destroyed the *other* pool instance B: the workers of A stay. -/
 theorem c11_idle_quiescence {c : Cfg} (hc : WF c) {s : State} (h : Reachable c s) (hst : Stuck c s) (hnu : NoUserWait s)
     (hex : s.exit = false) :
-    (∀ t, t < c.nt → (c.nw ≤ t → s.pc t = Pc.done) ∧ (t < c.nw → s.pc t = Pc.wCvBlocked)) ∧ s.q = [] ∧
-    ∀ j, j < s.nextJob → s.ran j = 1 := by
+    (∀ t, t < c.nt → (c.nw ≤ t → s.pc t = Pc.done ∨ s.pc t = Pc.bCvBlocked) ∧ (t < c.nw → s.pc t = Pc.wCvBlocked)) ∧
+    s.q = [] ∧ ∀ j, j < s.nextJob → s.ran j = 1 := by
   have hi := reachable_inv hc h
   have hne := hi.n_noexit hex
-  -- a non-enabled thread is finished or asleep and not notified
-  have key : ∀ t, t < c.nt → s.pc t = Pc.done ∨ (s.pc t = Pc.wCvBlocked ∧ s.woken t = false) := by
-    intro t ht
-    have hen := stuck_enabledPc hc h hst t ht
-    unfold enabledPc at hen
-    split at hen
-    · rename_i hpc; exact Or.inl hpc
-    · rename_i hpc; exact absurd hpc (hi.s_nostuck t)
-    · rename_i hpc; right; exact ⟨hpc, by simpa using hen⟩
-    · rename_i f hpc; exact absurd hpc (hnu t f)
-    · rename_i hpc
-      have := (hne t).1; rw [hpc] at this; cases this
-    · cases hen
-  have hthr : ∀ t, t < c.nt → (c.nw ≤ t → s.pc t = Pc.done) ∧ (t < c.nw → s.pc t = Pc.wCvBlocked) := by
-    intro t ht
-    rcases key t ht with hd | ⟨hb, _⟩
-    · exact ⟨fun _ => hd, fun hw => absurd hd ((hne t).2.2.1 hw)⟩
+  have hpcs := c11_quiescent_threads hc h hst hnu
+  have hthr : ∀ t, t < c.nt → (c.nw ≤ t → s.pc t = Pc.done ∨ s.pc t = Pc.bCvBlocked) ∧ (t < c.nw → s.pc t = Pc.wCvBlocked) := by
+    intro t _
+    rcases hpcs t with hd | hb | hb
+    · exact ⟨fun _ => Or.inl hd, fun hw => absurd hd ((hne t).2.2.1 hw)⟩
     · refine ⟨fun hw => ?_, fun _ => hb⟩
       have := hi.t_worker t (by rw [hb]; rfl)
+      omega
+    · refine ⟨fun _ => Or.inr hb, fun hw => ?_⟩
+      have := (hi.bb_pc t (by rw [hb]; rfl)).2
       omega
   have hq : s.q = [] := by
     cases hqq : s.q with
@@ -263,32 +274,23 @@ theorem c11_idle_quiescence {c : Cfg} (hc : WF c) {s : State} (h : Reachable c s
       exfalso
       obtain ⟨w, hw, hwq⟩ := hi.n_wake hex (by rw [hqq]; simp)
       have hwt : w < c.nt := Nat.lt_of_lt_of_le hw hc.nt
-      rcases key w hwt with hd | ⟨hb, hwk⟩
-      · exact (hne w).2.2.1 hw hd
-      · rcases hi.s_cv w (Or.inr hb) with h1 | h1
-        · rw [hwk] at h1; cases h1
-        · exact hwq h1
+      have hwb := (hthr w hwt).2 hw
+      have := (c11_no_stranded_job hc h hst hex (by rw [hqq]; simp) w).1
+      exact this hwb
   refine ⟨hthr, hq, ?_⟩
   intro j hj
-  have hpcs : ∀ t, s.pc t = Pc.done ∨ s.pc t = Pc.wCvBlocked := by
-    intro t
-    by_cases ht : t < c.nt
-    · rcases key t ht with hd | ⟨hb, _⟩
-      · exact Or.inl hd
-      · exact Or.inr hb
-    · exact Or.inl (hi.t_out t (by omega))
   have hloc : s.loc j = Loc.done := by
     cases hl : s.loc j with
     | fresh => have := (hi.l_fresh j).1 hl; omega
     | queued => have := (hi.l_q j).2 hl; rw [hq] at this; cases this
-    | held t => have := (hi.l_held t j).2 hl; rcases hpcs t with h1 | h1 <;> rw [h1] at this <;> cases this
+    | held t => have := (hi.l_held t j).2 hl; rcases hpcs t with h1 | h1 | h1 <;> rw [h1] at this <;> cases this
     | rejected t =>
       have := (hi.l_rej t j).2 hl
-      rcases this with this | this <;> rcases hpcs t with h1 | h1 <;> rw [h1] at this <;> cases this
+      rcases this with this | this <;> rcases hpcs t with h1 | h1 | h1 <;> rw [h1] at this <;> cases this
     | swapped t =>
       have hm := (hi.l_swap t j).2 hl
       have := hi.l_dqpc t (by intro e; rw [e] at hm; cases hm)
-      rcases hpcs t with h1 | h1 <;> rw [h1] at this <;> cases this
+      rcases hpcs t with h1 | h1 | h1 <;> rw [h1] at this <;> cases this
     | done => rfl
   have h1 := hi.c_once j
   rw [hloc] at h1
@@ -309,42 +311,23 @@ theorem c11_quiescent_closure_fate {c : Cfg} (hc : WF c) {s : State} (h : Reacha
     have := hi.c_once j
     split at this <;> omega
   | true =>
-    have hall := c11_stop_terminates hc h hst hnu hex
-    have hpcs : ∀ t, s.pc t = Pc.done := by
-      intro t
-      by_cases ht : t < c.nt
-      · exact hall t ht
-      · exact hi.t_out t (by omega)
+    have hpcs := c11_quiescent_threads hc h hst hnu
     have hloc : s.loc j = Loc.done := by
       cases hl : s.loc j with
       | fresh => have := (hi.l_fresh j).1 hl; omega
       | queued => have := (hi.l_q j).2 hl; rw [hi.x_exit_q hex] at this; cases this
-      | held t => have := (hi.l_held t j).2 hl; rw [hpcs t] at this; cases this
+      | held t => have := (hi.l_held t j).2 hl; rcases hpcs t with h1 | h1 | h1 <;> rw [h1] at this <;> cases this
       | rejected t =>
         have := (hi.l_rej t j).2 hl
-        rcases this with this | this <;> rw [hpcs t] at this <;> cases this
+        rcases this with this | this <;> rcases hpcs t with h1 | h1 | h1 <;> rw [h1] at this <;> cases this
       | swapped t =>
         have hm := (hi.l_swap t j).2 hl
         have := hi.l_dqpc t (by intro e; rw [e] at hm; cases hm)
-        rw [hpcs t] at this; cases this
+        rcases hpcs t with h1 | h1 | h1 <;> rw [h1] at this <;> cases this
       | done => rfl
     have h1 := hi.c_once j
     rw [hloc] at h1
     simpa using h1
-
-/-- at quiescence every thread is finished or asleep in the worker loop -/
-theorem c11_quiescent_threads {c : Cfg} (hc : WF c) {s : State} (h : Reachable c s) (hst : Stuck c s) (hnu : NoUserWait s) (t : Nat) :
-    s.pc t = Pc.done ∨ s.pc t = Pc.wCvBlocked := by
-  have hi := reachable_inv hc h
-  by_cases ht : t < c.nt
-  · cases hex : s.exit with
-    | false =>
-      have := (c11_idle_quiescence hc h hst hnu hex).1 t ht
-      by_cases hw : t < c.nw
-      · exact Or.inr (this.2 hw)
-      · exact Or.inl (this.1 (by omega))
-    | true => exact Or.inl (c11_stop_terminates hc h hst hnu hex t ht)
-  · exact Or.inl (hi.t_out t (by omega))
 
 /-- **Outcome (partial: bare-handle submissions excluded, see `c11_handle_lost`).** At quiescence — after `stop()`
 has terminated, or with an idle pool that nobody stopped — every submission whose closure has a cancellation channel
@@ -371,7 +354,7 @@ theorem c11_outcome_partial {c : Cfg} (hc : WF c) {s : State} (h : Reachable c s
       exfalso
       have hm := (hi.b_defer t j).2 hd
       have := (hi.b_defpc t (by intro e; rw [e] at hm; cases hm)).2
-      rcases hpcs t with h1 | h1 <;> rw [h1] at this <;> cases this
+      rcases hpcs t with h1 | h1 | h1 <;> rw [h1] at this <;> cases this
   | breakPromise =>
     have hb := hi.b_fut j hkk
     cases ha : s.armed j with
@@ -379,7 +362,7 @@ theorem c11_outcome_partial {c : Cfg} (hc : WF c) {s : State} (h : Reachable c s
     | false =>
       exfalso
       rcases hi.f_arm j (dropKind_bp_hasFut hkk) hj ha with h1 | h1 | h1 <;>
-        rcases hpcs (s.owner j) with h2 | h2 <;> rw [h2] at h1 <;> cases h1
+        rcases hpcs (s.owner j) with h2 | h2 | h2 <;> rw [h2] at h1 <;> cases h1
 
 /-- the complement for bare-handle submissions: at quiescence they were executed once or silently lost once -/
 theorem c11_outcome_bare {c : Cfg} (hc : WF c) {s : State} (h : Reachable c s) (hst : Stuck c s) (hnu : NoUserWait s) (j : Nat)
@@ -425,7 +408,7 @@ theorem c11_futures_resolved {c : Cfg} (hc : WF c) {s : State} (h : Reachable c 
     | false =>
       exfalso
       rcases hi.f_arm j hhf hj ha with h1 | h1 | h1 <;>
-        rcases hpcs (s.owner j) with h2 | h2 <;> rw [h2] at h1 <;> cases h1
+        rcases hpcs (s.owner j) with h2 | h2 | h2 <;> rw [h2] at h1 <;> cases h1
   have hcd := (hi.b_fut j hk).1 ha
   have hbr := hi.f_broken j hk
   have hval := hi.f_valued j hhf
@@ -434,7 +417,7 @@ theorem c11_futures_resolved {c : Cfg} (hc : WF c) {s : State} (h : Reachable c 
     intro hp
     by_cases hr : 0 < s.ran j
     · obtain ⟨t, _, _, hb⟩ := hi.f_pending j hhf hr hp
-      rcases hpcs t with h1 | h1 <;> rw [h1] at hb <;> cases hb
+      rcases hpcs t with h1 | h1 | h1 <;> rw [h1] at hb <;> cases hb
     · rw [hp] at hbr; simp at hbr; omega
   constructor
   · intro hr
@@ -476,6 +459,18 @@ theorem c11_self_stop_safe {c : Cfg} (hc : WF c) {s : State} (h : Reachable c s)
     s.touchedAfterDetach = false ∧ ∀ t, s.detached t = true → s.cur t = false ∧ (s.pc t).isLoop = false := by
   have hi := reachable_inv hc h
   exact ⟨hi.z_touch, hi.z_det⟩
+
+/-- **A pool keeps its workers until it is stopped itself.** `_current` is one thread-local shared by all pool instances;
+whatever the jobs of pool A do — including `stop()` or destruction of *another* pool instance B from a worker of A —, as
+long as A has not been stopped none of its workers has returned from `worker()` or lost its mark. -/
+theorem c11_workers_stay {c : Cfg} (hc : WF c) {s : State} (h : Reachable c s) (hex : s.exit = false) (w : Nat)
+    (hw : w < c.nw) : s.pc w ≠ Pc.done ∧ s.cur w = true ∧ s.detached w = false := by
+  have hi := reachable_inv hc h
+  have hn := hi.n_noexit hex w
+  refine ⟨hn.2.2.1 hw, ?_, hn.2.2.2⟩
+  cases hcur : s.cur w with
+  | true => rfl
+  | false => have := hi.z_cur w hw hcur; rw [hn.2.2.2] at this; cases this
 
 /-- **The destructor leaves no worker behind.** When the destructor has completed and no other `stop()` is still
 walking a thread list (destroying the pool while another thread is inside `stop()` is a caller error), every worker is
@@ -553,7 +548,7 @@ theorem c11_fixed_closure_dtor :
 /-! ## Non-vacuity: the hypotheses are met by non-trivial reachable states -/
 
 example : WF (cfg1 [Act.submit Kind.co [] false, Act.submit Kind.fn [Prim.stop] false, Act.submit Kind.det [] false] true true) :=
-  ⟨rfl, by decide, by decide⟩
+  ⟨rfl, by decide, by decide, by decide⟩
 
 /-- a job stops the pool from its worker (self-detach) while two more submissions are queued: quiescent, all done, one
 ran, two cancelled -/
@@ -581,6 +576,15 @@ example :
     let c : Cfg := { nw := 1, nt := 2, script := fun _ => [Act.submit Kind.fn [Prim.wait 0] false, Act.submit Kind.det [Prim.set 0] false] }
     let s := run c (init c) schedClientFirst
     (∀ t, t < 2 → enabled s t = false) ∧ s.pc 0 = Pc.waitFlag 0 ∧ s.q = [1] ∧ s.ran 1 = 0 := by
+  decide
+
+/-- two pool instances: a job on A's only worker stops pool B (joining B's worker), then a second job still runs on A -/
+example :
+    let c : Cfg := { nw := 1, nt := 3, hasB := true, script := fun _ => [Act.submit Kind.det [Prim.stopB] false, Act.submit Kind.fn [] false] }
+    let s := run c (init c) (List.replicate 4 (1, 0) ++ List.replicate 20 (2, 0) ++ List.replicate 12 (0, 0)
+                             ++ List.replicate 6 (1, 0) ++ List.replicate 30 (0, 0))
+    (∀ t, t < 3 → enabled s t = false) ∧ s.exit = false ∧ s.bExit = true ∧ s.pc 1 = Pc.done ∧ s.pc 0 = Pc.wCvBlocked ∧
+    s.cur 0 = true ∧ s.ran 0 = 1 ∧ s.ran 1 = 1 ∧ s.fut 1 = Fut.value := by
   decide
 
 /-- an idle pool that nobody stopped: the client is finished, the worker sleeps, both jobs ran -/
